@@ -25,6 +25,9 @@ def run():
              sa, "select_a exhaustive branch")
     small_nf, small_bits, small_tbits, small_p0 = (int(x) for x in m.groups())
     must(r"max\(2, idx\) - 2\.\.min\(idx \+ 3, f\.factors\.len\(\)\)", sa, "select_a j range")
+    mask_bits = int(must(r"let mut mask = 0u(\d+);", sa, "select_a mask type").group(1))
+    must(r"if mask & \(1 << g\) == 0 \{\s*mask \|= 1 << g;", sa, "select_a mask update")
+    must(r"\.filter\(\|g\| mask & \(1 << g\) == 0\)", sa, "select_a mask filter")
     must(r"assert!\(div >= 3\);", sa, "select_a divisor assertion")
     floor = int_lit(must(r"let target = max\(\s*Uint::from\((\d+)u64\),", sf, "target floor").group(1))
     must(r"for i in 1\.\.min\(fb\.len\(\), 2 \* idx \+ 4 \* nfacs\) \{", sf, "pool range")
@@ -43,6 +46,8 @@ def run():
            f"def smallNf : Nat := {small_nf}", f"def smallBits : Nat := {small_bits}",
            f"def smallTBits : Nat := {small_tbits}", f"def smallP0 : Nat := {small_p0}", "",
            "/-- `max(2000, …)` in `select_siqs_factors` -/", f"def targetFloor : Nat := {floor}", "",
+           "/-- width of the integer type of `mask` in `select_a`: `1 << g` overflows for `g ≥` this -/",
+           f"def maskBits : Nat := {mask_bits}", "",
            "end Ymq.Gen.SiqsSel", ""]
     write_gen("SiqsSel", "\n".join(out), ["src/siqs.rs"])
     return f"seed={seed:#x} shifts={shifts} loop={loop_iters},{widen_every},{early_mult},{early_every}"
